@@ -122,13 +122,15 @@ theorem killAfter_fires (ops : List Op) (i : Nat) (τ : Timer) (a : Nat)
   killAfter_fires' (Inv.init.steps ops) i τ a hi hk hp ha hd
 
 /-- The POSITIVE half, "the actor actually exits". For every schedule: (1) a live idle target (no
-request pending, not in `post_stop`, gate open) whose `exit_after` just acted exits with exactly that
+request pending, its message loop running — not still `Starting` —, not in `post_stop`, gate open) whose
+`exit_after` just acted exits with exactly that
 reason, at that instant, the next time its task runs; after a `kill_after` acted, a target that is
 not gone exits `"killed"` the next time its task runs — whatever else is pending (a kill overrides
 a stop request and cancels `post_stop`). (2) In any reachable state: once an `exit_after` has acted
 the stop request is on record or the actor is gone, once a `kill_after` has acted the kill request
 is on record or the actor is gone (requests are never taken back), and after the target's task has
-run a recorded kill has been obeyed and a recorded stop has at least ended the message loop. -/
+run a recorded kill has been obeyed (also by a target that is still `Starting`) and a recorded stop
+has at least ended the message loop — unless the target is still `Starting`: there the request waits. -/
 theorem exit_after_stops (T : Target) (p now : Nat) (he : T.exit = none) :
     (T.killReq = false → T.stopReq = none → T.stopping = none → T.psGate = false → T.starting = false →
       ((T.stop (.exitAfter (asMillis p))).run now).exit = some (.exitAfter (asMillis p), now)) ∧
@@ -149,7 +151,7 @@ theorem acted_then_requested (ops : List Op) :
 /-- ... and at every quiescent point of a quiescent run (this is the clause `stopsOk` of
 `Timers.okPrompt`, evaluated on the exit the real supervisor observed): a `kill_after` that has acted
 ⇒ the actor is gone; an `exit_after` that has acted ⇒ the actor has stopped accepting (gone, or in
-`post_stop`). -/
+`post_stop`) — or it is still `Starting` (gated `post_start`) and the request waits for its message loop. -/
 theorem acted_then_gone (ms : List MOp) (τ : Timer) (hτ : τ ∈ (mrun init ms).timers) (hne : τ.sentAt ≠ []) :
     (τ.kind = .killAfter → (mrun init ms).target.exit ≠ none) ∧
     (τ.kind = .exitAfter → (mrun init ms).target.closedAt ≠ none ∨ (mrun init ms).target.starting = true) := by
@@ -191,7 +193,8 @@ theorem delivers_nothing_after_close (ops : List Op) :
   exact he.before tc htc (h.1, h.2.1)
     (List.mem_append_right _ (List.mem_map.mpr ⟨h, hh, rfl⟩)) τ hτ t ht
 
-/-- EXACTLY once (quiescent runs): while the target has never stopped accepting, at every quiescent
+/-- EXACTLY once (quiescent runs): while the target has never stopped accepting and its message loop
+runs (it is not still `Starting`, where accepted messages queue up), at every quiescent
 point every attempt `k` of every well-typed sending timer `i` — the one message of a `send_after`, the
 k-th message of a `send_interval` — has been handled exactly once. -/
 theorem delivered_exactly_once (ms : List MOp) (hcl : (mrun init ms).target.closedAt = none)
